@@ -29,6 +29,8 @@ MCInit2 ==
 NodePool(U) == KnotSet(U) \cup Midpoints(U) \cup Outside(U) \cup {x \in ExtraNodes : Valid(U, x)}
 EvalGrid(U) == ParamGrid(U, Deg(U) + 1)
 
+(* the default nodes of fit_points: closed equispaced over the whole interval *)
+NCGrid(V, n) == [i \in 1..n |-> Add(Umin(V), Mul(Sub(Umax(V), Umin(V)), Q(i - 1, n - 1)))]
 Tols == {<<"default">>, <<"none">>, <<"q", 1, 2>>}
 InteriorSet(U) == KnotSet(U) \ {Umin(U), Umax(U)}
 
@@ -117,6 +119,29 @@ MCArgs(name, h, dep) ==
     [] name = "CvEq" ->
          {[obj |-> "a", other |-> B] : B \in EqOthers(AsCurve(h["a"]))}
          \cup {[obj |-> "a", other |-> NotCurve], [obj |-> "a", other |-> AsCurve(h["a"])]}
+    [] name = "CvDerivate" -> {[obj |-> "a"]}
+    [] name = "CvIntegrate" -> IF h["a"].W = <<>> THEN {[obj |-> "a"]} ELSE {}
+    [] name = "CvFitCurve" ->
+         LET V == U IN
+         {[obj |-> "a", other |-> C, nodes |-> nd] :
+             C \in {c \in Others({}) : c.W = <<>>},
+             nd \in {<<>>} \cup (IF Deg(V) >= 1 THEN {<<Umin(V), Umax(V)>>, Knots(V)} ELSE {})}
+    [] name = "CvFitPoints" ->
+         LET V == U
+             grid == SeqOfSet(EvalGrid(V))
+             src  == Curve(V, Gen2(Npts(V)), h["a"].W)
+         IN {[obj |-> "a", nodes |-> grid, data |-> [i \in 1..Len(grid) |-> Q(((i * 5) % 7) - 3, 1 + (i % 2))], dflt |-> FALSE],
+             [obj |-> "a", nodes |-> grid, data |-> [i \in 1..Len(grid) |-> Eval(src, grid[i])], dflt |-> FALSE],
+             [obj |-> "a", nodes |-> <<Umin(V)>>, data |-> <<One>>, dflt |-> FALSE]}
+            \cup (IF Npts(V) = Deg(V) + 1
+                  THEN LET sq == [i \in 1..Npts(V) |-> Add(Umin(V), Mul(Sub(Umax(V), Umin(V)), Q(i - 1, Npts(V))))] IN
+                       {[obj |-> "a", nodes |-> sq, data |-> [i \in 1..Len(sq) |-> R(i * i - 2)], dflt |-> FALSE]}
+                  ELSE {})
+            \cup (IF h["a"].W = <<>> /\ Npts(V) = Deg(V) + 1 THEN   \* default nodes: unisolvent for one span
+                    {[obj |-> "a", nodes |-> NCGrid(V, Npts(V) + k), data |-> [i \in 1..(Npts(V) + k) |-> R((i * i) % 5)], dflt |-> TRUE] : k \in {j \in {0, 2} : Npts(V) + j >= 2}}
+                  ELSE {})
+    [] name = "CvFitFunction" ->
+         {[obj |-> "a", src |-> Curve(U, Gen2(Npts(U)), h["a"].W)]}
     [] name = "CvCopy" -> {[obj |-> "a"]}
     [] name = "CvFraction" -> {[obj |-> "a"]}
     [] OTHER -> {}
